@@ -144,6 +144,16 @@ T3 = {
  'C15-r3-2': ('.', 'TestDemo2NewWhere', 'openRowStore resumes from the data file header only, ignoring the offset file', 'rejected points, restart, a WHERE change admitting them', 'strengthened', 'C15.g (= C02.f, initially only under C02/C03/C12)'),
  'C16-r3-1': ('.', 'TestDemo1', 'PERCENTILE arity guard loosened to 2..5', 'PERCENTILE with 3 or 4 arguments', 'strengthened', 'C16.i'),
  'C16-r3-2': ('.', 'TestDemo2', 'InsertRaw evaluates dims.AsMap() unconditionally as a Tracef argument', 'a truncated or garbled raw dimension map', 'strengthened', 'C16.j'),
+ 'C12-r3-1': ('.', 'TestC12R3Demo1', 'makeFollows combines the tables\' offsets with OffsetsBySource.Advance (the maximum) instead of the minimum', 'a follower restarted from an image in which its tables are persisted at different WAL positions', 'strengthened', 'C12.l'),
+ 'C12-r3-2': ('.', 'TestC12R3Demo2', 'reducePartitionRequests sorts the workers\' results by offset.Position() only', 'a routing batch spanning two WAL segments (leader restart) while a follower is behind, >= 3 CPUs', 'strengthened', 'C12.m'),
+ 'C17-r3-1': ('.', 'TestDemo1Coalesced', 'the delivery loop stores an iteration\'s error into the shared err variable', 'coalescing, a query failing inside the scan that arrived before the victim', 'strengthened', 'C17.h'),
+ 'C17-r3-2': ('.', 'TestDemo2EarlyStop', 'combinedOnValue skips iterations that have no non-nil column on a row', 'coalescing, a co-scheduled query that stops early, a later-added field only in the memstore', 'strengthened', 'C17.h'),
+ 'C18-r3-1': ('.', 'TestC18Demo1', 'Tree.Copy returns the receiver when the tree is empty', 'a memstore query right after a flush, inserts arriving mid-scan', 'strengthened', 'C18.c'),
+ 'C18-r3-2': ('.', 'TestC18Demo2', 'rowMerger re-reads truncateBefore() per row', 'keys in both stores and an insert that advances the clock mid-scan', 'strengthened', 'C18.c'),
+ 'C19-r3-1': ('web', 'TestDemo1Expired', 'authenticate re-issues the session cookie (new helper setAuthCookie) before userInOrg is consulted', 'an expired cookie of a removed user: the refusal carries a fresh cookie', 'strengthened', 'C19.c (issuance checked through helper call sites)'),
+ 'C19-r3-2': ('rpc/server', 'TestDemo2Repeated', 'authorize routes refusals through a log-throttling helper that returns nil when the log is suppressed', 'two unauthorized calls within a minute', 'initial', 'C19.a'),
+ 'C20-r3-1': ('rpc/server', 'TestDemo1', 'MsgPackCodec.Marshal encodes into a pooled buffer and returns its bytes', 'a message larger than one HTTP/2 frame followed by another send', 'strengthened', 'C20.i'),
+ 'C20-r3-2': ('rpc/server', 'TestDemo2Follower', 'every receive error from a follower is marked retriable', 'a follower stream dying mid-result with a redundant handler registered', 'strengthened', 'C20.j'),
 }
 
 def main():
